@@ -49,6 +49,7 @@ struct Run : ContBase {
 
     std::string gen_key() {
         static const char *fixed[] = {"key", "Key", "KEY", "kEy", "a", "A", "b", "B", "ab", "aB", "Ab", "z.1", "Z.1", "n_0", "N_0", "k-9"};
+        if (s.chance(1, 10)) { const auto &tw = hash_twins(); const auto &p = tw[s.range(0, (long)tw.size() - 1)]; return s.boolean() ? p.first : p.second; }   // equal 32-bit hash, different bytes
         if (s.chance(3, 4)) return fixed[s.range(0, 15)];
         if (!loadable_case && s.chance(1, 4)) return "";
         size_t len = (size_t)s.range(1, 6); std::string r;
@@ -84,7 +85,7 @@ struct Run : ContBase {
         int api = loadable_case ? (int)s.pick({0, 4, 1, 2}) : (int)s.pick({4, 3, 1, 2});
         Buf *kb = Buf::cstr(k);
         Ent e; e.key = k; bool ok;
-        errno = 0;
+        errno = poison;
         if (api == 0) { std::string v = gen_val(false, 120); Buf vb(v); ok = qlisttbl_put(t, kb->c(), vb.p, vb.n); if (scribble) vb.scribble(); e.val = v; e.isstr = false; }
         else if (api == 1) { std::string v = gen_text(40); Buf *vs = Buf::cstr(v); ok = qlisttbl_putstr(t, kb->c(), vs->c()); if (scribble) vs->scribble(); delete vs; e.val = v + std::string(1, '\0'); e.isstr = true; }
         else if (api == 2) { std::string v = gen_text(20); long n = s.range(-99, 99); Buf *vs = Buf::cstr(v); ok = qlisttbl_putstrf(t, kb->c(), "%ld:%s", n, vs->c()); if (scribble) vs->scribble(); delete vs; e.val = std::to_string(n) + ":" + v + std::string(1, '\0'); e.isstr = true; }
@@ -104,7 +105,7 @@ struct Run : ContBase {
         bool newmem = s.boolean();
         Buf *kb = Buf::cstr(k);
         size_t sz = 555555; void *p = nullptr; int64_t iv = 0;
-        errno = 0;
+        errno = poison;
         if (api == 0) p = qlisttbl_get(t, kb->c(), &sz, newmem);
         else if (api == 1) p = qlisttbl_getstr(t, kb->c(), newmem);
         else iv = qlisttbl_getint(t, kb->c());
@@ -130,7 +131,7 @@ struct Run : ContBase {
         std::vector<size_t> hits = m.lookup(&k);
         Buf *kb = Buf::cstr(k);
         size_t n = 999999;
-        errno = 0;
+        errno = poison;
         qlisttbl_data_t *objs = qlisttbl_getmulti(t, kb->c(), newmem, &n);
         int e = errno;
         delete kb;
@@ -171,7 +172,7 @@ struct Run : ContBase {
         qlisttbl_obj_t o; memset(&o, 0, sizeof o);
         size_t step = 0;
         std::vector<size_t> toremove;
-        errno = 0;
+        errno = poison;
         while (qlisttbl_getnext(t, &o, kb ? kb->c() : nullptr, newmem)) {
             if (step >= hits.size()) c.fail(FUNC, "listtbl:walk-extra", "walk returned more than the %zu expected entries", hits.size());
             const Ent &e = m.v[hits[step]];
@@ -229,6 +230,7 @@ struct Run : ContBase {
     }
 
     void run() {
+        draw_poison();
         int ob = (int)s.range(0, 15);
         m.o = Opts{(ob & 1) != 0, (ob & 2) != 0, (ob & 4) != 0, (ob & 8) != 0};
         loadable_case = s.chance(1, 3);
